@@ -176,11 +176,13 @@ class TableAnalysis:
                 self.var = var
 
         class TextBlock:
-            pass
+            def __repr__(self):
+                return '<the collected text>'
         TEXT = TextBlock()
 
         class StreamFlag:
-            pass
+            def __repr__(self):
+                return '<how the text block ended>'
         FLAG = StreamFlag()
 
         def consts(name):
